@@ -124,10 +124,16 @@ func c19Class(err error) string {
 		return "err:bothP"
 	case strings.Contains(s, "unable to generate"):
 		switch {
+		case strings.Contains(s, "logQ[") && strings.Contains(s, "smaller than LogNthRoot"):
+			return "err:gen:logQbelowRoot:" + reLogIdx.FindStringSubmatch(s)[1]
+		case strings.Contains(s, "logP[") && strings.Contains(s, "smaller than LogNthRoot"):
+			return "err:gen:logPbelowRoot:" + reLogIdx.FindStringSubmatch(s)[1]
 		case strings.Contains(s, "logQ["):
 			return "err:gen:logQsize:" + reLogIdx.FindStringSubmatch(s)[1]
 		case strings.Contains(s, "logP["):
 			return "err:gen:logPsize:" + reLogIdx.FindStringSubmatch(s)[1]
+		case strings.Contains(s, "LogNthRoot=") && strings.Contains(s, "is not in"):
+			return "err:gen:logNthRoot"
 		case strings.Contains(s, "cannot GenModuli"):
 			return "err:gen:genExhausted"
 		case strings.Contains(s, "MaxLogN"):
@@ -147,6 +153,8 @@ func c19Class(err error) string {
 		return "err:pBits:" + reIdx.FindStringSubmatch(s)[1]
 	case strings.Contains(s, "a Pi (i="):
 		return "err:pPrime:" + reIdx.FindStringSubmatch(s)[1]
+	case strings.Contains(s, "Q and P are not pairwise distinct"):
+		return "err:qpNotDistinct"
 	case strings.Contains(s, "initRings/ringQ:"):
 		return "err:ringQ:" + c19RingClass(s)
 	case strings.Contains(s, "initRings/ringP:"):
